@@ -3,6 +3,7 @@
 package dtlcp
 
 import (
+	"context"
 	"net"
 	"time"
 )
@@ -48,6 +49,78 @@ func verifIsHelloVerifyRequest(msg handshakeMessage) bool {
 
 // the datagram stack keeps its real buffering / flushing / retransmission snapshot: the message stubs hand a
 // marker of every record to the real write(), and flush is the real one
-func verifDriverWrite(c *Conn, data []byte)  { c.write(append([]byte{0xAA}, data...)) }
-func verifDriverFlush(c *Conn) (int, error) { return c.flush__orig() }
+// (each marker is a well-formed record — header with type, version, a running sequence number and the true
+// length — because the real writeFlight packs whole records into datagrams by parsing those headers)
+var verifDriverRecSeq int
+
+func verifDriverWrite(c *Conn, data []byte) {
+	typ := byte(recordTypeHandshake)
+	if len(data) == 2 && data[0] == byte(recordTypeChangeCipherSpec) {
+		typ, data = byte(recordTypeChangeCipherSpec), data[1:]
+	}
+	hdr := []byte{typ, 1, 1, 0, 0, 0, 0, 0, 0, 0, byte(verifDriverRecSeq), byte(len(data) >> 8), byte(len(data))}
+	verifDriverRecSeq++
+	c.write(append(hdr, data...))
+}
+func verifDriverFlush(c *Conn) (int, error) {
+	n, err := c.flush__orig()
+	if n > 0 {
+		vdg.flushed = true
+	}
+	return n, err
+}
+
+// verifDriverWaiting: called whenever the endpoint starts a read. The first read after a flush is the wait for
+// the peer's answer to the flight just sent: on the server (whose retransmission is driven by its timer, the
+// client's by the read deadline) the retransmission timer must be armed at that moment.
+func verifDriverWaiting(c *Conn) {
+	if vdg.flushed {
+		vdg.flushed = false
+		vdg.armedAtWait = append(vdg.armedAtWait, c.retransmitTimer != nil && c.retransmitTimer.handle != nil)
+	}
+}
 func verifDriverTimeout() error              { return verifTimeoutErr{} }
+
+// C19 — the server's retransmission timer is armed whenever it has sent a flight and starts waiting for the
+// client's answer: after the full handshake's ServerHello…ServerHelloDone flight and after the abbreviated
+// handshake's ServerHello, ChangeCipherSpec, Finished flight (otherwise a lost flight is never resent and,
+// in the abbreviated handshake, the client — which has nothing of its own to resend but the hello — cannot
+// recover either). The client follows the honest script.
+//
+//verif:harness props=C19 paths=2000 reach=waitedFull,waitedResumed
+func VerifHarness_C19_server_timer_armed() {
+	stubSuites()
+	cache := &verifCache{}
+	cfg := &Config{Rand: verifRand{}, Time: func() time.Time { return time.Time{} }, SessionCache: cache}
+	cfg.Certificates = []Certificate{
+		{Certificate: [][]byte{{1}}, PrivateKey: verifServerKey{}},
+		{Certificate: [][]byte{{2}}, PrivateKey: verifServerKey{}},
+	}
+	resumed := verifSplitInt("resumed", 0, 1) == 1
+	if resumed {
+		cache.have = true
+		cache.sess = &SessionState{sessionId: verifNondetBytes("sess.id", 32), vers: VersionTLCP, cipherSuite: ECC_SM4_GCM_SM3,
+			masterSecret: verifNondetBytes("sess.master", 48)}
+		vdg.script = []int{kCH, kFin}
+	} else {
+		vdg.script = []int{kCH, kCKE, kFin}
+	}
+	c := verifDriverConn(cfg, false)
+	armed := 0
+	c.retransmitTimer = newRetransmitTimer(time.Second, 60*time.Second, func(d time.Duration) *TimerHandle {
+		armed++
+		return &TimerHandle{Stop: func() bool { return true }}
+	})
+	_ = c.serverHandshake(context.Background())
+	if len(vdg.armedAtWait) >= 1 {
+		if c.didResume {
+			verifReach("waitedResumed")
+		} else {
+			verifReach("waitedFull")
+		}
+	}
+	verifTag("resumed", map[bool]int{false: 0, true: 1}[c.didResume])
+	for _, a := range vdg.armedAtWait {
+		verifAssert("C19.react.serverTimerArmedWhileWaitingForAnswer", a)
+	}
+}
